@@ -197,7 +197,7 @@ class Mir:
             self.consts[m.group(1).strip()] = (int(m.group(3)), m.group(2))
         self.const_bodies = {}
         for m in re.finditer(r'^(?:const|static) ([^\n{]*?): ([^\n=]*?) = \{\n(.*?)\n\}\n', txt, re.S | re.M):
-            if 'promoted[' not in m.group(1) and re.search(r'WithOverflow|Mul\(|Add\(|Sub\(|Shl\(', m.group(3)):
+            if ('promoted[' not in m.group(1) and re.search(r'WithOverflow|Mul\(|Add\(|Sub\(|Shl\(', m.group(3))) or 'RangeInclusive::<' in m.group(3):
                 self.const_bodies[m.group(1).strip()] = (m.group(2).strip(), m.group(3))     # computed constant: evaluated by the engine on first use
             v = re.search(r'_0 = const (-?\d+)_(\w+);', m.group(3))
             if v is None and re.search(r'_0 = &_1;', m.group(3)):      # promoted reference to an integer constant
@@ -548,6 +548,9 @@ class Engine:
                 assert isinstance(v, E) and v.var == p[1], (v, p)
             elif p[0] == 'index':
                 idx = p[1]
+                while isinstance(v, Ref): v = self.read_place(v.frame, v.place)
+                if type(v).__name__ == 'IdArr' and idx.startswith('_'):     # identity array (slot identity): the value at index i is i
+                    v = I(fr.loc[idx].t, 'usize'); continue
                 if idx.startswith('_'):
                     iv = fr.loc[idx]
                     assert T.is_c(iv.t), 'symbolic index'
@@ -645,6 +648,9 @@ class Engine:
             cv = self.mir.const(c)
             if cv: return const_int(cv[0], cv[1])
             cb = getattr(self.mir, 'const_bodies', {})
+            if c not in cb and 'promoted[' in c:        # promoted constants are printed under a shortened path: exact key, else the longest key that is a suffix
+                cand = sorted((k for k in cb if c.endswith('::' + k)), key=len)
+                if cand: c = cand[-1]
             if c in cb:
                 if not hasattr(self, '_const_cache'): self._const_cache = {}
                 if c not in self._const_cache:
@@ -1160,6 +1166,15 @@ def default_models():
         op = re.search(r'wrapping_(\w+)$', c).group(1)
         raw = {'add': T.add, 'sub': T.sub, 'mul': T.mul}[op](x.t, y.t)
         yield p, I(T.wrap(raw, k), x.ty)
+
+    @reg(r'RangeInclusive::<\w+>::new$')
+    def _range_new(e, callee, args, path):
+        yield path, S({'start': args[0], 'end': args[1]})
+
+    @reg(r'RangeInclusive::<\w+>::contains::<\w+>$')
+    def _range_contains(e, callee, args, path):
+        r, x = e.deref(args[0]), e.deref(args[1])
+        yield path, B(T.and_(T.cmp('<=', r.get('start').t, x.t), T.cmp('<=', x.t, r.get('end').t)))
 
     @reg(r'<impl i\d+>::unsigned_abs$')
     def _(e, c, a, p):
